@@ -7,7 +7,8 @@ open CaddyModel.C07
 #print axioms isLocal_rejection_never_fires
 #print axioms served_path_under_root
 #print axioms listed_dir_under_root
-#print axioms listing_omits_hidden_partial
+#print axioms listing_omits_hidden
+#print axioms listing_is_exactly_the_unhidden_entries
 #print axioms otherwise_not_found_or_passthru
 #print axioms error_outcomes_come_from_the_filesystem
 #print axioms fs_accesses_contained
@@ -19,4 +20,5 @@ open CaddyModel.C07
 #print axioms chunkMatch_never_runs_out_of_fuel
 #print axioms fsGlob_never_runs_out_of_fuel
 #print axioms listing_omits_hidden_full_fails
+#print axioms listing_hypothesis_needed
 #print axioms glob_from_request_full_fails
